@@ -7,10 +7,12 @@
   (both formats, temp, junk, misplaced, upper-case names; arbitrary keep-sets) are compared with
   the model exactly; Verify/repair is monitored on the implementation.  `Model/SftpStore.lean` is
   `SFTPStore.Prune` (after the repair of D14), compared the same way through pkg/sftp's server.
-  S3 shares the naming scheme; its Prune is not modelled (by reading: same filter through `idFromName`).
+  `Model/S3Store.lean` is `S3Store.Prune` with `idFromName`, compared the same way through an in-process
+  S3 service (minio client against it).
 -/
 import Desync.Proofs.LocalStoreProofs
 import Desync.Proofs.SftpStoreProofs
+import Desync.Proofs.S3StoreProofs
 
 namespace Desync.C16
 open Desync
@@ -103,6 +105,35 @@ theorem sftp_temp_names (unc : Bool) (id digits : Bytes) (h : id.length = 32) (h
     isSftpTempName (nameFromID unc id).2 (extOf unc) = false ∧
     isSftpTempName (nameFromID (!unc) id).2 (extOf unc) = false :=
   ⟨sftp_temp_classified unc id digits h hd hall, sftp_temp_not_chunk unc id h, sftp_temp_not_other_chunk unc id h⟩
+
+/-! ### the S3 store -/
+
+/-- S3 prune deletes only the canonical object of an unreferenced ID of the store's own format
+    (removing an object never fails on S3, so there is no half-way outcome) -/
+theorem s3_prune_removes_only (unc : Bool) (keep : Bytes → Bool) (d : StoreDir) :
+    (∀ f ∈ s3Prune unc keep d, f ∈ d) ∧
+    ∀ f ∈ d, f ∉ s3Prune unc keep d →
+      ∃ id, id.length = 32 ∧ keep id = false ∧ f = nameFromID unc id ∧ s3Classify unc f.1 f.2 = .consider id :=
+  ⟨s3Prune_subset unc keep d, s3Prune_removed_only unc keep d⟩
+
+theorem s3_prune_keeps_referenced (unc : Bool) (keep : Bytes → Bool) (d : StoreDir) (id : Bytes)
+    (hk : keep id = true) (hid : id.length = 32) (hin : nameFromID unc id ∈ d) :
+    nameFromID unc id ∈ s3Prune unc keep d :=
+  s3Prune_keeps_referenced unc keep d id hk hid hin
+
+theorem s3_prune_keeps_other_format (unc : Bool) (keep : Bytes → Bool) (d : StoreDir) (dir id : Bytes)
+    (hid : id.length = 32) (hin : (dir, (nameFromID (!unc) id).2) ∈ d) :
+    (dir, (nameFromID (!unc) id).2) ∈ s3Prune unc keep d :=
+  s3Prune_keeps_other_format unc keep d dir id hid hin
+
+theorem s3_prune_keeps_non_chunks (unc : Bool) (keep : Bytes → Bool) (d : StoreDir) (f : Bytes × Bytes)
+    (hs : s3Classify unc f.1 f.2 = .skip) (hin : f ∈ d) : f ∈ s3Prune unc keep d :=
+  s3Prune_keeps_skipped unc keep d f hs hin
+
+/-- afterwards no canonical own-format object of an unreferenced ID is left -/
+theorem s3_prune_complete (unc : Bool) (keep : Bytes → Bool) (d : StoreDir) :
+    ∀ id, id.length = 32 → keep id = false → nameFromID unc id ∈ d → nameFromID unc id ∉ s3Prune unc keep d :=
+  s3Prune_complete unc keep d
 
 theorem gen_sites :
     Gen.site_str_tmpChunkPrefix_found = true ∧ Gen.site_str_CompressedChunkExt_found = true ∧
